@@ -239,12 +239,26 @@ def xcopy_args(draw, spc5=False, max_cscd=6, max_seg=8, seg_codes=(0x00, 0x01, 0
     if draw(st.integers(0, 5)):
         a["segment_descriptor_list"] = draw(st.lists(segment(spc5, seg_codes), max_size=max_seg))
     if draw(st.booleans()):
-        a["inline_data"] = bytearray(draw(st.binary(max_size=64)))
+        if draw(st.integers(0, 11)) == 0:
+            # large inline data (symbolic): the LID1 length field is 4 bytes wide, LID4's 2 bytes
+            n = draw(st.sampled_from([65535] if spc5 else [65535, 65536, 65537, 70000, 131072 + 3]))
+            a["inline_data"] = {"fill": draw(st.integers(0, 255)), "n": n}
+        else:
+            a["inline_data"] = bytearray(draw(st.binary(max_size=64)))
     return a
 
 
+def inline_bytes(x):
+    if isinstance(x, dict) and set(x) == {"fill", "n"}:
+        return bytearray([x["fill"]]) * x["n"]
+    return x
+
+
 def strip_notes(x):
-    """deep copy without the harness-side '_' keys (the library mutates caller dicts)."""
+    """deep copy without the harness-side '_' keys (the library mutates caller dicts);
+    symbolic buffers are materialized."""
+    if isinstance(x, dict) and set(x) == {"fill", "n"}:
+        return inline_bytes(x)
     if isinstance(x, dict):
         return {k: strip_notes(v) for k, v in x.items() if not (isinstance(k, str) and k.startswith("_"))}
     if isinstance(x, list):
